@@ -7,6 +7,7 @@ package connectconformance
 // server's request checks report feedback, which the runner turns into failures.
 
 import (
+	"connectrpc.com/conformance/internal"
 	"fmt"
 	"os"
 	"path/filepath"
@@ -81,7 +82,7 @@ func TestVerifC02InProcess(t *testing.T) {
 		t.Fatal(err)
 	}
 	logP, errP := &c02Printer{}, &c02Printer{}
-	results, runErr := run(configCases, &testTrie{}, &testTrie{}, nil, nil, suites, logP, errP, &Flags{MaxServers: 4, Parallelism: 8})
+	results, runErr := run(configCases, &testTrie{}, &testTrie{}, nil, nil, suites, logP, errP, &Flags{MaxServers: 4, Parallelism: 8, ServerBind: internal.DefaultHost}) // the bind address is the command line's default
 	if results == nil {
 		r.Violate("run-refused", fmt.Sprintf("run() returned no results: %v", runErr), map[string]any{"level": level})
 		return
